@@ -406,6 +406,9 @@ worker_start(void *thr_ptr)
 					// like is done after encoding a Block.
 					if (thr->outbuf != NULL) {
 						state = THR_STOP;
+						VERIF_EV("WTop", thr->coder,
+							VERIF_THR(thr),
+							state, 0, 0, 0);
 						break;
 					}
 				}
